@@ -13,12 +13,18 @@
 // service / plugins instance is built; only the store survives).
 //
 // Actors (reconcile of a BindRequest, pod-deleted / pod-completed / BindRequest-deleted handlers,
-// Sync, SyncForNode) run as real goroutines. Every client call and every acquisition of the
-// per-group mutex (hook group_mutex.VerifHook, build tag verif) is a gate: the goroutine blocks
-// until the controller grants it, so the interleaving given by the schedule is forced
-// deterministically; the controller always waits for the granted actor to reach its next gate (or
-// to finish) before it decides again - there is no sleeping and no timing dependence; the 30 s
-// timeouts are failure detectors only (exit 2).
+// Sync, SyncForNode) run as real goroutines. Every client call and every call of LockMutexForGroup
+// (hook group_mutex.VerifHook, build tag verif) is a gate: the goroutine parks until the controller
+// grants it, so the interleaving given by the schedule is forced. After a grant the controller waits
+// until the actor is parked at its next gate, has ended, or is REALLY blocked inside the group
+// mutex: a granted lock request goes on into the real LockMutexForGroup (refcount bookkeeping and
+// sync.Mutex included); if the mutex is taken the goroutine blocks there, which the controller
+// observes in the goroutine dump (state sync.Mutex.Lock below LockMutexForGroup - a stable
+// condition, polled every 200us; event Wait). A release wakes the waiter, the controller waits for
+// it to reach its gate (event Lock) before it decides again; a waiter that does not show up within
+// 5 s (only possible if the mutex object was lost) is marked stuck, and a segment whose unfinished
+// actors are all stuck is abandoned like a crashed process (event Env Stuck). Apart from these two
+// observations there is no timing dependence; the 180 s timeout is a failure detector (exit 2).
 //
 // The harness plays the environment: the binding sub-resource (sets pod.spec.nodeName, rejects a
 // second binding like the API server), the reservation pod (when the service watches for the
